@@ -32,12 +32,18 @@ def full_rank_data(draw, n, F):
     return Z @ A.T + b, r
 
 
+def integral_rows(X):
+    """Integer-valued rows with the same structure (columns rescaled to a spread of ~20 before rounding)."""
+    sd = X.std(axis=0) + 1e-300
+    return np.rint((X - np.rint(X.mean(axis=0))) * (20.0 / sd))
+
+
 def g_white(draw):
     F = gen.integer(draw, 2, 5)
     n = gen.integer(draw, F + 2, 30)
     X, _ = full_rank_data(draw, n, F)
     return {"X": X, "pinv": gen.choice(draw, [False, False, True]), "dask": gen.boolean(draw),
-            "chunks": gen.composition(draw, n, max_parts=5), "how": gen.choice(draw, ["plain", "plain", "fortran", "strided"])}
+            "chunks": gen.composition(draw, n, max_parts=5), "how": gen.choice(draw, ["plain", "plain", "fortran", "strided", "int"])}
 
 
 def darr(X, chunks):
@@ -61,6 +67,8 @@ def c_white(ctx, case):
     from bob.learn.em import Whitening
 
     X = case["X"]
+    if case.get("how") == "int":
+        X = integral_rows(X)
     cov = np.cov(X.T)
     cond = np.linalg.cond(cov)
     if cond > 1e6:
@@ -117,7 +125,7 @@ def g_wccn(draw):
     return {"X": X, "cls": cls, "names": [int(v) for v in names], "other_names": [int(v) for v in other],
             "perm2": gen.permutation(draw, n), "pinv": gen.choice(draw, [False, False, True]),
             "as_list": gen.boolean(draw), "dask": gen.boolean(draw), "chunks": gen.composition(draw, n, max_parts=4),
-            "style": style, "how": gen.choice(draw, ["plain", "plain", "fortran", "strided"])}
+            "style": style, "how": gen.choice(draw, ["plain", "plain", "fortran", "strided", "int"])}
 
 
 def within_scatter(Y, cls):
@@ -137,6 +145,8 @@ def c_wccn(ctx, case):
     from bob.learn.em import WCCN
 
     X, cls = case["X"], np.asarray(case["cls"])
+    if case.get("how") == "int":
+        X = integral_rows(X)
     K = len(case["names"])
     S = within_scatter(X, cls) / K
     cond = np.linalg.cond(S)
